@@ -45,11 +45,8 @@ impl AggregateFunction for Min {
     }
 
     fn emit(&self) -> data::Value {
-        if self.min == std::f64::NEG_INFINITY {
-            // as before: an infinite minimum is not reported
-            return data::Value::None;
-        }
-        let of_floats = if self.min.is_finite() {
+        // the initial value means that no float was seen; an infinite minimum that was seen is a value
+        let of_floats = if self.min != std::f64::INFINITY {
             Some(data::Value::from_float(self.min))
         } else {
             None
